@@ -208,15 +208,23 @@ class RecordingDul(object):
         self.sent = [p if hasattr(p, 'pdu_type') or isinstance(p, list) else list(p) for p in self.sent]
 
 
+_MAKE_LOCK = __import__('threading').Lock()
+
+
 def make_assoc(max_pdu_length, lazy=False):
-    """A real asceprovider.Association whose provider is a recorder (no thread, no socket)."""
-    from pynetdicom2 import asceprovider
-    assoc = asceprovider.Association.__new__(asceprovider.Association)
-    assoc.dul = RecordingDul(lazy)
-    assoc.max_pdu_length = max_pdu_length
+    """A real asceprovider.Association (built by its own constructor) whose provider is a recorder (no thread, no
+    socket)."""
+    import types
+    from pynetdicom2 import asceprovider, applicationentity
+    rec = RecordingDul(lazy)
+    with _MAKE_LOCK:
+        saved = asceprovider.dulprovider
+        asceprovider.dulprovider = types.SimpleNamespace(DULServiceProvider=lambda *a, **k: rec)
+        try:
+            assoc = asceprovider.Association(applicationentity.ClientAE('VERIF'), None, max_pdu_length)
+        finally:
+            asceprovider.dulprovider = saved
     assoc.association_established = True
-    assoc.accepted_contexts = {}
-    assoc.ae = None
     return assoc
 
 
